@@ -56,8 +56,13 @@ WmaNext(s, x) ==
         wt  == IF warm THEN cnt ELSE s.weight
         sum == IF warm THEN s.sum + x * wt ELSE s.sum - s.sum_flat + x * s.weight
         sf  == s.sum_flat - old + x
-    IN R([s EXCEPT !.deque = dq, !.index = idx, !.count = cnt, !.weight = wt, !.sum = sum, !.sum_flat = sf],
-         Norm(2 * sum, wt * (wt + 1)))
+        \* once per period (when the cursor wraps on a full window) both running sums are rebuilt from the window, oldest first
+        \* (added by the fix for the long-stream drift; in exact arithmetic it changes nothing, which Refines confirms)
+        wrap == idx = 0 /\ cnt = s.period
+        sf2  == IF wrap THEN SumS(dq) ELSE sf
+        sum2 == IF wrap THEN WSum(dq) ELSE sum
+    IN R([s EXCEPT !.deque = dq, !.index = idx, !.count = cnt, !.weight = wt, !.sum = sum2, !.sum_flat = sf2],
+         Norm(2 * sum2, wt * (wt + 1)))
 WmaReset(s) == [s EXCEPT !.index = 0, !.count = 0, !.weight = 0, !.sum = 0, !.sum_flat = 0,
                          !.deque = Rep(s.period, 0)]
 
